@@ -1,7 +1,9 @@
 package main
 
 import (
+	"bytes"
 	"fmt"
+	"io"
 	"strings"
 )
 
@@ -17,6 +19,14 @@ func init() {
 			n := 1500
 			if tier == "thorough" {
 				n = 60000
+			}
+			// alien chunks whose length does not fit 31 bits (streams of 2 GiB and more, produced on the fly)
+			huge := []uint64{1<<31 - 1, 1 << 31, 1<<31 + 12345}
+			if tier == "thorough" {
+				huge = append(huge, 1<<32-1, 3<<30)
+			}
+			for _, n := range huge {
+				emit(Case{Op: fmt.Sprintf("c02.hugealien len=%d pos=%d", n, r.Intn(2)), Tags: []string{"huge-alien-chunk"}, NonTrivial: true})
 			}
 			for i := 0; i < n; i++ {
 				emit(genGram(r, tier))
@@ -172,7 +182,50 @@ func genGram(r *Rng, tier string) Case {
 	return Case{Op: op, Tags: tl, NonTrivial: nontrivial && valid}
 }
 
+// zeros is an endless source of zero bytes (limited by io.LimitReader)
+type zeros struct{}
+
+func (zeros) Read(p []byte) (int, error) {
+	for i := range p {
+		p[i] = 0
+	}
+	return len(p), nil
+}
+
+// runHugeAlien: MThd (format 1, 2 tracks), [track], alien chunk "XFIH" of n zero bytes, track: the alien chunk is
+// skipped whatever its length, both tracks are read (oracle only: the stream is never held in memory)
+func runHugeAlien(op string, v *Verdict) {
+	f := fields(op)
+	var n uint64
+	var pos int
+	fmt.Sscanf(f["len"], "%d", &n)
+	fmt.Sscanf(f["pos"], "%d", &pos)
+	hdr := []byte{'M', 'T', 'h', 'd', 0, 0, 0, 6, 0, 1, 0, 2, 0, 96}
+	trk := func(key byte) []byte {
+		return []byte{'M', 'T', 'r', 'k', 0, 0, 0, 8, 0x00, 0x90, key, 0x40, 0x00, 0xFF, 0x2F, 0x00}
+	}
+	alien := []byte{'X', 'F', 'I', 'H', byte(n >> 24), byte(n >> 16), byte(n >> 8), byte(n)}
+	parts := []io.Reader{bytes.NewReader(hdr)}
+	if pos == 1 {
+		parts = append(parts, bytes.NewReader(trk(60)))
+	}
+	parts = append(parts, bytes.NewReader(alien), io.LimitReader(zeros{}, int64(n)))
+	if pos == 0 {
+		parts = append(parts, bytes.NewReader(trk(60)))
+	}
+	parts = append(parts, bytes.NewReader(trk(62)))
+	got := readClassFrom(io.MultiReader(parts...))
+	want := "ok:1/m:96/0:903C40,0:FF2F00|0:903E40,0:FF2F00"
+	if got != want {
+		v.Oracle = append(v.Oracle, fmt.Sprintf("a valid file with an alien chunk of %d bytes between/before its tracks reads as %s, expected %s", n, short(got), want))
+	}
+}
+
 func runC02(c Case, m *Model) (v Verdict) {
+	if strings.HasPrefix(c.Op, "c02.hugealien") {
+		runHugeAlien(c.Op, &v)
+		return
+	}
 	mf := fields(m.Ask(c.Op))
 	if mf["bytes"] == "" {
 		v.Mismatch = append(v.Mismatch, "model rejected the op: "+short(fmt.Sprint(mf)))
